@@ -12,30 +12,12 @@
    output = L [A outcome; B wire; L waits; A dt]
      outcome 0 returned | 1 TimeoutError | 2 ConnectionError | 3 ValueError | 4 RuntimeError | 9 does not terminate (fuel)
      wait    = L [A write?; tmo requested]                                                                       *)
-From EN Require Import Lib.Bytes Lib.Sx IO.Retry IO.SendAll IO.SendMsg IO.TlsWrite IO.Payload Gen.ParamsC04.
+From EN Require Import Lib.Bytes Lib.Sx IO.Retry IO.SendAll IO.SendMsg IO.TlsWrite IO.Payload IO.Budget Run.IOCommon Gen.ParamsC04.
 Open Scope Z_scope.
 
-Definition as_tmo (x : sx) : option tmo := as_opt as_Z x.
-Definition of_tmo (t : tmo) : sx := of_opt A t.
 
-Definition as_sockans (x : sx) : option sockans :=
-  match x with
-  | L [A k; A n; A c] =>
-      if k =? 0 then (if n <? 0 then None else Some (SSent (Z.to_nat n) c))
-      else if (k =? 1) || (k =? 2) then Some (SBlock true c)
-      else if (k =? 3) || (k =? 4) then Some (SBlock false c)
-      else if k =? 5 then Some (SErr c)
-      else None
-  | _ => None
-  end.
 
-Definition as_selans (x : sx) : option selans :=
-  match x with
-  | L [A r; A e] => match as_bool (A r) with Some b => Some {| sa_ready := b; sa_el := e |} | None => None end
-  | _ => None
-  end.
 
-Definition of_wait (w : wait) : sx := L [of_bool (w_write w); of_tmo (w_req w)].
 
 Definition out_code (o : sout) : Z :=
   match o with SOk => 0 | SExc c => c | SFuel => 9 end.
@@ -43,7 +25,7 @@ Definition out_code (o : sout) : Z :=
 Definition of_sres (r : sres) : sx :=
   L [A (out_code (sr_out r)); B (sk_wire (sr_sock r)); L (map of_wait (sr_waits r)); A (sr_dt r)].
 
-Definition run (i : sx) : sx :=
+Definition run_transport (i : sx) : sx :=
   match i with
   | L (A path :: A iov :: chunks :: T :: ri :: script :: sels :: _) =>
       do chunks <- as_list_of as_chunk chunks;
@@ -79,4 +61,19 @@ Definition run (i : sx) : sx :=
         L [A (out_code (sr_out r)); digest (sk_wire (sr_sock r)); L []; A 0]
       else bad_input
   | _ => bad_input
+  end.
+
+(* client level (send lock) and lock histories: see Run/IOCommon.v
+     path 8  TCPNetworkClient.send_packet behind the send lock   extra = L [lock; A has_sendmsg]
+             output L [A code; B wire; L waits; A dt; L lockwaits; locks afterwards]
+     path 9  lock history replayed by real threads               extra = L [L labels; A kind]                   *)
+Definition run (i : sx) : sx :=
+  match i with
+  | L [A 8; A iov; chunks; T; ri; script; sels; _; L [lk; A hs]] =>
+      do chunks <- as_list_of as_chunk chunks;
+      do T <- as_tmo T; do ri <- as_tmo ri; do lk <- as_lock lk; do hs <- as_bool (A hs);
+      do script <- as_list_of as_sockans script; do sels <- as_list_of as_selans sels;
+      run_client_send_case sendmsg_drops_empty_views hs iov chunks T ri lk script sels
+  | L [A 9; _; _; _; _; _; _; _; L [labels; A kind]] => run_lock_history labels kind
+  | _ => run_transport i
   end.
